@@ -220,7 +220,7 @@ def run(chk):
                 try:
                     got = s.eko_iterate(G[:n].copy(), a1, a0, bsym[:n], (n, 0), K)
                 except Exception as e:  # noqa: BLE001
-                    chk.fail(f"{tagi}.no_exception", f"{type(e).__name__}: {e}", fn=fni, replay=rp)
+                    chk.raised(f"{tagi}.no_exception", e, fn=fni, replay=rp)
                     continue
                 steps = vnp.np_shim.geomspace(a0, a1, 1 + K)
                 ok_steps = len(calls) == K
